@@ -159,6 +159,7 @@ class Verifier(Stmts):
             loc = next(self.loc_counter)
             fields = {}
             st.heap[loc] = HeapObj('obj', fields=fields, cls=ty.pyclass)
+            st.heap[loc].field_types = {f: t for f, t in ty.fields.items() if isinstance(t, T)}
             for f, fty in ty.fields.items():
                 fields[f] = self.make_symbolic("%s.%s" % (name, f), fty, st)
             return Ref(loc)
@@ -268,7 +269,13 @@ class Verifier(Stmts):
         # parameters as they were on entry are available as old(x); current bindings are in the frame
         env['result'] = result
         # lets are entry values: evaluate them in the pre-state (parameters may have been re-bound by the body)
-        lets = self.with_lets(con, st.old if st.old is not None else st, {})
+        if st.old is not None:
+            pre = st.old.fork()
+            pre.pc = list(st.pc)        # this path's conditions may decide if-then-else terms of the lets statically
+            pre.old = None
+        else:
+            pre = st
+        lets = self.with_lets(con, pre, {})
         lets.update(env)
         return lets
 
@@ -652,7 +659,7 @@ class Verifier(Stmts):
                 elif isinstance(cur, V):
                     h.fields[node.attr] = self.fresh(node.attr, cur.ty)
                 elif cur is None or is_concrete(cur):
-                    ty = con.local_types.get(path)
+                    ty = con.local_types.get(path) or (h.field_types or {}).get(node.attr)
                     if ty is None:
                         raise Outside("type of modified path %s unknown (c.local(**{path: T}))" % path)
                     h.fields[node.attr] = self.fresh(node.attr, ty)
